@@ -93,6 +93,17 @@ def main(tier):
             unconfirmed.append(dict(closure=key[0], kind=key[1], msg=key[2], example=ps[0]['text'],
                                     tried_extensions=ps[0]['exts']))
     agg.violations.extend(confirmed)
+    # translator validation: the real binary must survive sampled comment texts the MIR run normalised
+    samples = [s for r in results for s in r.get('samples', [])]
+    rnd.shuffle(samples)
+    for s in samples[:12 if tier == 'quick' else 60]:
+        hit = normalisers.try_panic_on_binary(binary, s['text'], s['exts'][:2])
+        if hit is None:
+            agg.validated += 1
+        else:
+            msg = 'mirsym found no panic for %r but the real binary crashed: %s' % (s['text'], hit)
+            agg.validation_failures.append(msg)
+            agg.engine_errors.append({'engine_error': 'translator validation: ' + msg})
     agg.cover['normaliser panic outcomes (texts)'] = len(panics)
     bounds = dict(comment_text_max=b['lmax'], normaliser_tasks=len(tasks), diff_shapes=len(shapes), comment_sequences=min(len(seqs), b['c12_sample']))
     return finish(
